@@ -23,7 +23,7 @@ import numpy as np
 
 from .. import falatent_model as fm
 from .. import tlc, traces
-from ..common import pin_repo
+from ..common import relayout, pin_repo
 
 SHAPES = [(1, 1, True), (1, 1, False), (1, 2, True), (1, 2, False), (2, 1, True), (2, 1, False), (2, 2, False),
           (2, 2, True)]
@@ -162,7 +162,7 @@ def problem(em, seed):
     stats = []
     for h in range(H):
         st = em.GMMStats(C, dim)
-        st.n, st.sum_px, st.sum_pxx, st.t = N[h].copy(), Fs[h].copy(), np.zeros((C, dim)), 1
+        st.n, st.sum_px, st.sum_pxx, st.t = N[h].copy(), relayout(Fs[h], r), np.zeros((C, dim)), 1
         stats.append(st)
     history = bool(r.rand() < 0.35)
     if history:
